@@ -88,6 +88,7 @@ class StubNautilusBound(object):
     # -- persistence (symh5 / h5py): identity and cache token
     def write(self, group):
         group.attrs['type'] = 'NautilusBound'
+        group.attrs['n_dim'] = self.n_dim
         group.attrs['stub_idx'] = self.idx
         group.attrs['stub_token'] = self.token
 
@@ -129,9 +130,10 @@ class _Missing(object):
         raise NotModelled(self._what)
 
 
-h5py_proxy = _Missing('h5py')
-path_proxy = _Missing('Path')
-os_proxy = _Missing('os')
+from . import symh5  # noqa: E402
+h5py_proxy = symh5.h5py
+path_proxy = symh5.Path
+os_proxy = symh5.os_mod
 GaussianMixtureStub = _Missing('GaussianMixture')
 MultivariateNormalStub = _Missing('multivariate_normal')
 minimize_stub = _Missing('minimize')
